@@ -272,3 +272,39 @@ Definition diag_caseV (I : instV dyad) : Q * Q * bool :=
                                           | _ => 0 end)
                                 (rows_of I)) (basis_list (ndV I))),
    cross_checkV I).
+
+(* ================================================================================ *)
+(* Scale-robust certificates (second generation; the definitions above are kept): purely
+   relative norm-wise band |residual| <= 1e-9 * (sum over the matrix-vector terms of
+   (1-norm of the row) * (max-norm of the vector) + |exact value|), see Model/C11.v. *)
+Definition stress_cert2 (I : instV dyad) : bool :=
+  forallb (fun t =>
+    let c := basisV dyad DO t in
+    let mu_ := dmaxabs (ST I) (ucellV dyad DO I c) in
+    let mb := dmaxabs (BS I) (bdataV dyad DO I c) in
+    forallb (fun r => match kind_row I r with
+                      | BNeu => true
+                      | _ => within2 (res_T dyad DO I c r)
+                                     (dadd (dadd (dmul (drow_sum (ST I) r) mu_)
+                                                 (dmul (drow_sum (BS I) r) mb))
+                                           (dabs (exactT_row dyad DO I c r)))
+                      end) (rows_of I)) (basis_list (ndV I)).
+Definition disp_cert2 (I : instV dyad) : bool :=
+  forallb (fun t =>
+    let c := basisV dyad DO t in
+    let mu_ := dmaxabs (BDC I) (ucellV dyad DO I c) in
+    let mb := dmaxabs (BDF I) (bdataV dyad DO I c) in
+    forallb (fun r => match kind_row I r with
+                      | BDir => within2 (res_U dyad DO I c r)
+                                        (dadd (dadd (dmul (drow_sum (BDC I) r) mu_)
+                                                    (dmul (drow_sum (BDF I) r) mb))
+                                              (dabs (exactU_row dyad DO I c r)))
+                      | _ => true
+                      end) (rows_of I)) (basis_list (ndV I)).
+Definition check_caseV2 (nfaces nbnd nneu : Z) (I : instV dyad) : bool :=
+  (Z.of_nat (nfV I) =? nfaces)%Z
+  && (Z.of_nat (length (filter (is_bndV I) (seq 0 (nfV I)))) =? nbnd)%Z
+  && (Z.of_nat (length (filter (is_neuf I) (seq 0 (nfV I)))) =? nneu)%Z
+  && ((ndV I =? 2)%nat || (ndV I =? 3)%nat)
+  && negb (Qle_bool (dy (muV I)) 0) && Qle_bool 0 (dy (laV I))
+  && stress_cert2 I && disp_cert2 I && cross_checkV I.
